@@ -14,6 +14,12 @@
 //! (b) against an independent closure oracle (plain DFS with a visited set over the `is` lists) written here;
 //!     on small grids the DFS is itself cross-checked against a Floyd-Warshall closure.
 //!
+//! Reflection is held to the statement in full for EVERY conjunct def: its parts may or may not have defs of their
+//! own (0, 1 or all of them undefined), repeat (`a-a`) or be empty (`a-`, `-b`, `a--b`); the records carry every
+//! part as a Marker, as another value, or not at all.  (Before the repair of `Namespace::reflect` a Marker tag
+//! without a def was not taken as a conjunct part: `{ahu, rooftop}` with defs `ahu`, `ahu-rooftop` and no def
+//! `rooftop` did not reflect `ahu-rooftop` - reported as `oracle_reflect` with that record.)
+//!
 //! The grids are ARBITRARY graphs: since /repo da32af2 the traversals expand a def once, so `is` lists that
 //! form cycles (self loops, 2-cycles, rings, cycles with tails, cycles through diamonds and conjuncts) are in
 //! scope like everything else.  A regression to a traversal without a visited check never returns on them: the
@@ -514,7 +520,37 @@ fn sorted_fits(refl: &libhaystack::defs::reflection::Reflection, bases: &[String
     v
 }
 
-/// run every query of one case; `check_conj_scope`: the records only use conjuncts with defined parts
+/// what kind of conjunct situations a record exercises (distribution only)
+fn record_stats(o: &Oracle, r: &RecSpec, got: &[String], out: &mut CaseOut) {
+    let tag: BTreeMap<&str, bool> = r.iter().map(|(k, m)| (k.as_str(), *m)).collect();
+    for c in o.is.keys().filter(|c| c.contains('-')) {
+        let parts: Vec<&str> = c.split('-').collect();
+        let nundef = parts.iter().filter(|p| !o.defined(p)).count();
+        let all_markers = parts.iter().all(|p| tag.get(p) == Some(&true));
+        let all_tags = parts.iter().all(|p| tag.contains_key(p));
+        let some_tag = parts.iter().any(|p| tag.contains_key(p));
+        let cls = if nundef == 0 { "all_parts_defined" } else if nundef == parts.len() { "no_part_defined" } else { "some_part_undefined" };
+        if all_markers {
+            out.stat(&format!("rec_has_conjunct:{cls}"));
+            if got.contains(c) {
+                out.stat(&format!("rec_reflects_conjunct:{cls}"));
+            }
+            if parts.iter().any(|p| p.is_empty()) {
+                out.stat("rec_has_conjunct:empty_part");
+            }
+            let distinct: BTreeSet<&&str> = parts.iter().collect();
+            if distinct.len() < parts.len() {
+                out.stat("rec_has_conjunct:repeated_part");
+            }
+        } else if all_tags {
+            out.stat(&format!("rec_conjunct_part_not_marker:{cls}"));
+        } else if some_tag {
+            out.stat(&format!("rec_conjunct_part_missing:{cls}"));
+        }
+    }
+}
+
+/// run every query of one case
 fn run_queries(
     rows: &[RowSpec],
     ns: &'static Namespace<'static>,
@@ -522,7 +558,6 @@ fn run_queries(
     universe: &[String],
     recs: &[RecSpec],
     bases: &[String],
-    conj_parts_defined: bool,
     out: &mut CaseOut,
 ) {
     let o = Oracle::new(rows);
@@ -575,23 +610,10 @@ fn run_queries(
         let d = rec_dict(r);
         let refl = ns.reflect(&d);
         let got = names(refl.defs.iter().copied());
+        // the statement in full, whatever the conjunct's parts are (defined or not, empty, repeated): the defs of
+        // the tags, of every conjunct def all of whose parts are Marker tags of the record, and all their supertypes
         let want = set_vec(&o.reflect(r));
-        if !conj_parts_defined {
-            // out of the property's scope (a conjunct def with an undefined part): only the model
-            // correspondence below is checked; what the code does is counted
-            out.stat(if got == want { "scope_conjunct_undefined_part_reflected" } else { "scope_conjunct_undefined_part_not_reflected" });
-            // in scope whatever the parts are: nothing is reflected beyond the statement's reflection, in
-            // particular no conjunct one of whose parts is not a marker tag of the record
-            if let Some(extra) = got.iter().find(|g| !want.contains(*g)) {
-                out.fail("oracle_reflect_extra", format!("record {r:?}: reflect yields {extra:?}, which the statement's reflection {want:?} does not contain"));
-            }
-            rreplies.push(format!(
-                "defs={}|fits={}",
-                show(&got),
-                show(&sorted_fits(&refl, bases))
-            ));
-            continue;
-        }
+        record_stats(&o, r, &got, out);
         if got != want {
             out.fail("oracle_reflect", format!("record {r:?}: reflect {got:?}, graph {want:?}"));
         }
@@ -647,6 +669,8 @@ const WORDS: &[&str] = &[
     "valve", "cmd", "sp", "tüv", "x", "a1", "b_2", "relationship", "association",
 ];
 const UNDEF: &[&str] = &["u0", "u1", "undefinedThing", "u-v", "ghost:key"];
+/// names that never get a def: the parts without a def of generated conjuncts
+const NODEF_PARTS: &[&str] = &["u0", "u1", "undefinedThing", "nodef", "rooftop"];
 
 pub struct GenGraph {
     pub rows: Vec<RowSpec>,
@@ -712,12 +736,31 @@ fn gen_graph_once(rng: &mut Rng, max_defs: u64) -> GenGraph {
         let plain: Vec<String> = defined.iter().filter(|d| !d.contains('-') && !d.contains(':')).cloned().collect();
         let kind = rng.below(100);
         let name = if kind < 14 && plain.len() >= 2 {
-            // conjunct of 2-3 defined parts; now and then one part (first, middle or last) has no def
+            // conjunct of 2-3 parts.  Of ten: five have defined parts only, two have ONE part (first, middle or
+            // last) without a def, one has NO part with a def, one has a repeated part (`a-a`, `a-b-a`), one is
+            // degenerate (an empty part: `a-`, `-a`, `a--b`)
             let k = 2 + rng.below(2) as usize;
             let mut parts: Vec<String> = (0..k).map(|_| rng.pick(&plain).clone()).collect();
-            if rng.chance(1, 6) {
-                let at = rng.below(k as u64) as usize;
-                parts[at] = rng.pick(&["u0", "u1", "undefinedThing", "nodef"]).to_string();
+            match rng.below(10) {
+                0 | 1 => {
+                    let at = rng.below(k as u64) as usize;
+                    parts[at] = rng.pick(NODEF_PARTS).to_string();
+                }
+                2 => {
+                    for p in parts.iter_mut() {
+                        *p = rng.pick(NODEF_PARTS).to_string();
+                    }
+                }
+                3 => {
+                    let from = rng.below(k as u64) as usize;
+                    let to = (from + 1 + rng.below(k as u64 - 1) as usize) % k;
+                    parts[to] = parts[from].clone();
+                }
+                4 => {
+                    let at = rng.below(k as u64) as usize;
+                    parts[at] = String::new();
+                }
+                _ => {}
             }
             parts.join("-")
         } else if kind < 24 {
@@ -821,7 +864,10 @@ pub fn gen_cyclic_graph(rng: &mut Rng, max_defs: u64, mode: u64) -> GenGraph {
     g
 }
 
-/// records over defined and undefined tag names; half of them aim at a conjunct
+/// records over defined and undefined tag names; half of them aim at a conjunct def: every part of it is, by the
+/// record's mode, a Marker tag / a tag with another value / absent - all parts Markers (5 of 12), one part
+/// absent, one part not a Marker, the parts WITHOUT a def absent, the parts without a def not Markers, the parts
+/// WITH a def absent, the parts with a def not Markers, every part at random
 pub fn gen_records(rng: &mut Rng, o: &Oracle, n: u64) -> Vec<RecSpec> {
     let defined: Vec<String> = o.is.keys().cloned().collect();
     let conj: Vec<String> = defined.iter().filter(|d| d.contains('-')).cloned().collect();
@@ -831,12 +877,30 @@ pub fn gen_records(rng: &mut Rng, o: &Oracle, n: u64) -> Vec<RecSpec> {
         if !conj.is_empty() && rng.chance(1, 2) {
             let c = rng.pick(&conj).clone();
             let parts: Vec<&str> = c.split('-').collect();
-            let spoil = rng.below(10);
+            let mode = rng.below(12);
+            let victim = rng.below(parts.len() as u64) as usize;
             for (i, p) in parts.iter().enumerate() {
-                if spoil == 0 && i == 0 {
-                    continue; // a part is missing
+                // 0 = Marker tag, 1 = tag with another value, 2 = no such tag
+                let state = match mode {
+                    0..=4 => 0,
+                    5 => if i == victim { 2 } else { 0 },
+                    6 => if i == victim { 1 } else { 0 },
+                    7 => if o.defined(p) { 0 } else { 2 },
+                    8 => if o.defined(p) { 0 } else { 1 },
+                    9 => if o.defined(p) { 2 } else { 0 },
+                    10 => if o.defined(p) { 1 } else { 0 },
+                    _ => rng.below(3),
+                };
+                match state {
+                    0 => {
+                        // a repeated part keeps its first state
+                        r.entry(p.to_string()).or_insert(true);
+                    }
+                    1 => {
+                        r.entry(p.to_string()).or_insert(false);
+                    }
+                    _ => {}
                 }
-                r.insert(p.to_string(), !(spoil == 1 && i == parts.len() - 1)); // or is not a marker
             }
         }
         let k = rng.below(5);
@@ -888,38 +952,87 @@ pub fn generate(ctx: &mut Ctx) {
     for (i, rows) in fixed.iter().enumerate() {
         emit_graph_case(ctx, &mut rng, &format!("fixed:{i}"), rows);
     }
-    // outside the property's scope (DESIGN: conjunct parts are defined defs): a conjunct def whose part `a`
-    // has no def.  Only the model correspondence is checked; the behaviour is counted in the distribution.
-    {
-        let rows = vec![RowSpec::plain("b", vec![]), RowSpec::plain("a-b", vec![Some("b".into())])];
+    // ---- conjunct defs whose parts have no def (0, 1, all of them), repeated parts, empty parts -----------
+    // every record of a case is built from three states per tag: Marker / another value / absent
+    let conj_cases: Vec<(&str, Vec<RowSpec>, Vec<&str>)> = vec![
+        // the repaired defect: `ahu-rooftop` with no def `rooftop` (also with the undefined part first, and no
+        // defined part at all)
+        (
+            "ahu_rooftop",
+            vec![RowSpec::plain("marker", vec![]), RowSpec::plain("ahu", vec![Some("marker".into())]), RowSpec::plain("ahu-rooftop", vec![Some("ahu".into())])],
+            vec!["ahu", "rooftop"],
+        ),
+        (
+            "undefined_first",
+            vec![RowSpec::plain("marker", vec![]), RowSpec::plain("ahu", vec![Some("marker".into())]), RowSpec::plain("rooftop-ahu", vec![Some("ahu".into())])],
+            vec!["ahu", "rooftop"],
+        ),
+        ("undefined_all", vec![RowSpec::plain("marker", vec![]), RowSpec::plain("u-v", vec![Some("marker".into())])], vec!["u", "v"]),
+        ("defined_all", vec![RowSpec::plain("a", vec![]), RowSpec::plain("b", vec![]), RowSpec::plain("a-b", vec![Some("b".into())])], vec!["a", "b"]),
+        (
+            "three_parts",
+            vec![
+                RowSpec::plain("b", vec![]),
+                RowSpec::plain("c", vec![]),
+                RowSpec::plain("b-a-c", vec![Some("b".into())]),
+                RowSpec::plain("a-b-c", vec![Some("c".into())]),
+                RowSpec::plain("b-c-a", vec![Some("b".into())]),
+                RowSpec::plain("x-y-a", vec![]),
+            ],
+            vec!["a", "b", "c"],
+        ),
+        // two conjuncts sharing the first part, a conjunct that extends another
+        (
+            "shared_first",
+            vec![RowSpec::plain("a", vec![]), RowSpec::plain("a-b", vec![]), RowSpec::plain("a-c", vec![Some("a".into())]), RowSpec::plain("a-b-c", vec![Some("a-b".into())])],
+            vec!["a", "b", "c"],
+        ),
+        // repeated parts
+        ("repeated", vec![RowSpec::plain("a", vec![]), RowSpec::plain("a-a", vec![]), RowSpec::plain("a-b-a", vec![]), RowSpec::plain("u-u", vec![])], vec!["a", "b", "u"]),
+        // empty parts: the record needs a tag with the empty name
+        (
+            "empty_parts",
+            vec![RowSpec::plain("a", vec![]), RowSpec::plain("a-", vec![]), RowSpec::plain("-b", vec![]), RowSpec::plain("a--b", vec![]), RowSpec::plain("-", vec![]), RowSpec::plain("--", vec![])],
+            vec!["a", "b", ""],
+        ),
+        // the conjunct's own name as a tag of the record (first clause of the statement), parts absent
+        ("name_as_tag", vec![RowSpec::plain("a", vec![]), RowSpec::plain("a-b", vec![Some("a".into())])], vec!["a-b", "a", "b"]),
+    ];
+    for (name, rows, tags) in &conj_cases {
+        let o = Oracle::new(rows);
+        let mut names: Vec<String> = mentioned(&o);
+        names.extend(tags.iter().map(|t| t.to_string()));
+        names.sort();
+        names.dedup();
+        // all 3^k records over the tags
+        let k = tags.len() as u32;
+        let mut recs: Vec<RecSpec> = Vec::new();
+        for code in 0..3u32.pow(k) {
+            let mut r: BTreeMap<String, bool> = BTreeMap::new();
+            let mut c = code;
+            for t in tags.iter() {
+                match c % 3 {
+                    0 => {}
+                    1 => {
+                        r.insert(t.to_string(), true);
+                    }
+                    _ => {
+                        r.insert(t.to_string(), false);
+                    }
+                }
+                c /= 3;
+            }
+            recs.push(r.into_iter().collect());
+        }
         let mut t = vec!["g".to_string()];
-        write_rows(&rows, &mut t);
-        t.push("q".into());
-        write_names(&["a".to_string(), "a-b".to_string(), "b".to_string()], &mut t);
-        t.push("r".into());
-        write_recs(&[vec![("a".to_string(), true), ("b".to_string(), true)], vec![("b".to_string(), true)]], &mut t);
-        t.push("b".into());
-        write_names(&["a".to_string(), "a-b".to_string(), "b".to_string()], &mut t);
-        ctx.case("scope:conjunct_undefined_part", &t.join(" "));
-    }
-    for (conj, defs, recs) in [
-        ("b-a", vec!["b"], vec![vec!["b"], vec!["a", "b"], vec!["a"]]),
-        ("b-a-c", vec!["b", "c"], vec![vec!["b", "c"], vec!["b"], vec!["a", "b", "c"], vec!["c"]]),
-        ("b-c-a", vec!["b", "c"], vec![vec!["b", "c"], vec!["b"], vec!["a", "b", "c"]]),
-    ] {
-        let mut rows: Vec<RowSpec> = defs.iter().map(|d| RowSpec::plain(d, vec![])).collect();
-        rows.push(RowSpec::plain(conj, vec![Some(defs[0].to_string())]));
-        let names: Vec<String> = ["a", "b", "c", conj].iter().map(|x| x.to_string()).collect();
-        let mut t = vec!["g".to_string()];
-        write_rows(&rows, &mut t);
+        write_rows(rows, &mut t);
         t.push("q".into());
         write_names(&names, &mut t);
         t.push("r".into());
-        let rs: Vec<RecSpec> = recs.iter().map(|r| r.iter().map(|k| (k.to_string(), true)).collect()).collect();
-        write_recs(&rs, &mut t);
+        write_recs(&recs, &mut t);
         t.push("b".into());
         write_names(&names, &mut t);
-        ctx.case("scope:conjunct_undefined_part", &t.join(" "));
+        ctx.case(&format!("conj:{name}"), &t.join(" "));
     }
     // ---- cyclic `is` graphs (in scope since the traversals expand a def once) -------------------
     let sy = |s: &str| Some(s.to_string());
@@ -1167,13 +1280,18 @@ pub fn exec(label: &str, input: &str, out: &mut CaseOut) {
                 }
             }
             let ns = build_ns(&rows);
-            // a conjunct def with a part that has no def: the positive half of the reflection rule is left open
-            let parts_defined = o.is.keys().filter(|c| c.contains('-')).all(|c| c.split('-').all(|p| o.defined(p)));
-            let in_scope = !label.starts_with("scope:") && parts_defined;
-            if !parts_defined {
+            // conjunct defs with parts that have no def / empty parts / repeated parts: in scope like all others
+            let conj: Vec<&String> = o.is.keys().filter(|c| c.contains('-')).collect();
+            if conj.iter().any(|c| c.split('-').any(|p| !o.defined(p))) {
                 out.stat("graph_with_conjunct_of_undefined_part");
             }
-            run_queries(&rows, ns, &queries, &queries, &recs, &bases, in_scope, out);
+            if conj.iter().any(|c| c.split('-').all(|p| !o.defined(p))) {
+                out.stat("graph_with_conjunct_of_no_defined_part");
+            }
+            if conj.iter().any(|c| c.split('-').any(|p| p.is_empty())) {
+                out.stat("graph_with_conjunct_of_empty_part");
+            }
+            run_queries(&rows, ns, &queries, &queries, &recs, &bases, out);
             unsafe { free_ns(ns) };
         }
         Some("zinc") => {
@@ -1200,7 +1318,7 @@ pub fn exec(label: &str, input: &str, out: &mut CaseOut) {
             out.stat("defs_zinc");
             // a fresh namespace per case (cold caches), the whole database as the fits universe
             let ns: &'static Namespace<'static> = Box::leak(Box::new(Namespace::make(db.grid.clone())));
-            run_queries(&db.rows, ns, &queries, &db.symbols, &recs, &bases, true, out);
+            run_queries(&db.rows, ns, &queries, &db.symbols, &recs, &bases, out);
             unsafe { free_ns(ns) };
             let _ = label;
         }
